@@ -245,12 +245,15 @@ Definition ghost0 : ghost := mkG false (fun _ => false) (fun _ => 0).
 Definition gset (f : N -> bool) (k : N) (v : bool) : N -> bool := fun j => if N.eqb j k then v else f j.
 Definition gsetN (f : N -> N) (k : N) (v : N) : N -> N := fun j => if N.eqb j k then v else f j.
 
-(* what re-grants trust / queues a dial: registration, a hello-ok report, and a report of
-   the initial state (which a connection never sends: reports are state changes only) *)
+(* what re-grants trust / queues a dial: registration, a hello-ok report, and a report of a
+   state that the hub maps to "queued" (only CmiStateInitStart, which a connection never
+   sends: reports are state changes only and nothing returns to the initial state) *)
+Definition grant_state (st : N) : bool :=
+  N.eqb st SmeHelloStateOk || N.eqb (pair_state_of st) ConnectionStateQueued.
 Definition regrants (l : label) (k : N) : bool :=
   match l with
   | LRegister j => N.eqb j k
-  | LState j st _ => N.eqb j k && (N.eqb st SmeHelloStateOk || N.eqb st CmiStateInitStart)
+  | LState j st _ => N.eqb j k && grant_state st
   | _ => false
   end.
 
@@ -260,7 +263,7 @@ Definition gstep (g : ghost) (l : label) : ghost :=
   | LUnregister k | LCancel k => mkG (g_down g) (gset (g_unreg g) k true) (g_ship g)
   | LRegister k => mkG (g_down g) (gset (g_unreg g) k false) (g_ship g)
   | LState k st _ =>
-      if N.eqb st SmeHelloStateOk || N.eqb st CmiStateInitStart
+      if grant_state st
       then mkG (g_down g) (gset (g_unreg g) k false) (g_ship g) else g
   | LSetShipID k v => mkG (g_down g) (g_unreg g) (gsetN (g_ship g) k v)
   | _ => g
@@ -286,7 +289,7 @@ Definition vqueued (v : sview) : bool := N.eqb (v_pst v) ConnectionStateQueued.
 Definition cond (b : bool) (code : N) : codes := if b then [] else [code].
 
 (* failure classes (SPEC codes) *)
-Definition mon_step (g : ghost) (before after : N -> sview) (l : label) (o : list obs) : codes :=
+Definition mon_core (g : ghost) (before after : N -> sview) (l : label) (o : list obs) : codes :=
   (* C10 (a) / C01-hub: a dial starts only for a trusted or queued SKI *)
   cond (forallb (fun k => v_trusted (before k) || vqueued (before k)) (dials_of o)) 10 ++
   (* C10 (d): no dial after Shutdown *)
@@ -320,13 +323,40 @@ Definition mon_step (g : ghost) (before after : N -> sview) (l : label) (o : lis
                        | _ => false end
         | None => true end) 17 ++
   (* C09-hub: a new connection is given the stored SHIP ID of its SKI *)
-  cond (forallb (fun p => N.eqb (snd p) (g_ship g (fst p))) (creates_of o)) 18 ++
-  (* C01-hub: client-role connections (trusted by construction) only towards SKIs that may be dialled;
-     C10 (b): and never to a SKI the user unregistered meanwhile *)
+  cond (forallb (fun p => N.eqb (snd p) (g_ship g (fst p))) (creates_of o)) 18.
+
+(* C10 (b), the window: no client-role connection (trusted by construction) is created
+   towards a SKI the user unregistered meanwhile *)
+Definition mon_window (g : ghost) (o : list obs) : codes :=
   cond (forallb (fun k => negb (g_unreg g k)) (client_creates_of o)) 19.
 
-(* labels other than l's own SKI must not move any other SKI's view (independence);
-   used as a correspondence-side sanity code as well *)
+Definition mon_step (g : ghost) (before after : N -> sview) (l : label) (o : list obs) : codes :=
+  mon_core g before after l o ++ mon_window g o.
+
+(* the monitor along a run of the model *)
+Definition vw (h : hub) : N -> sview := fun k => view_of (get h k).
+Fixpoint run_core (C : cfg) (g : ghost) (h : hub) (ls : list label) : codes :=
+  match ls with
+  | [] => []
+  | l :: r => let '(h1, o) := hstep C h l in
+              mon_core g (vw h) (vw h1) l o ++ run_core C (gstep g l) h1 r
+  end.
+Fixpoint run_window (C : cfg) (g : ghost) (h : hub) (ls : list label) : codes :=
+  match ls with
+  | [] => []
+  | l :: r => let '(h1, o) := hstep C h l in
+              mon_window g o ++ run_window C (gstep g l) h1 r
+  end.
+(* the region the window needs: the user unregisters / cancels k while a dial to k is in flight *)
+Fixpoint window_free (C : cfg) (h : hub) (ls : list label) : bool :=
+  match ls with
+  | [] => true
+  | l :: r =>
+      match l with
+      | LUnregister k | LCancel k => N.eqb (s_dialing (get h k)) 0
+      | _ => true
+      end && window_free C (fst (hstep C h l)) r
+  end.
 
 (* ---- the case stream ----
    A step is a group of labels the driver cannot separate by a snapshot: a report and the
